@@ -2,7 +2,14 @@ import props
 
 CONFIG = {
     "runs": props.simple("c03", 150, 2500),
-    "status": "partial (in progress): C03_countsA_is_MCA proved; sat_propagate = (0 < MCA) and the incremental-mark-vector "
-              "theorem are being proved; correspondence + truth-table oracle on every request meanwhile",
+    "status": "full (Coq, Props/C03.v, for every WFQ circuit with positive root count and every in-range literal list, "
+              "duplicates/contradictions/core literals included): C03_sat_correct: sat = (0 < MCA); "
+              "C03_sat_incremental: on a shared mark vector the k-th answer = (0 < MCA of all literals asserted so far) while "
+              "all earlier answers were true; C03_sat_incremental_strong: same while no earlier call was cut short by the core "
+              "test; C03_sat_incremental_proviso_needed: witness that the proviso cannot be dropped (a call refuted by the core "
+              "test leaves the vector untouched); C03_sat_subroot / C03_sat_subroot_incremental: root_index Some r with cached "
+              "count > 0 answers (no literal refuted by the core) && (0 < countsA at r); C03_sat_subroot_proviso_needed, "
+              "C03_sat_subroot_core_guard_needed: witnesses; C03_countsA_is_MCA. "
+              "Correspondence + truth-table oracle on every request ties the model to the Rust",
     "assumptions": ["assumption literals within 1..n", "the loaded formula is satisfiable"],
 }
